@@ -16,7 +16,7 @@ def body : Value → Bytes
   | .num n => encInt (numCode n)
   | .str s => encStr s
   | .bool b => encU64 (if b then 1 else 0)
-  | .time ns _ => encU64 ns.toNat
+  | .time ns _ => encU64 (ns % 2^64).toNat   -- uint64(UnixNano()): wraps for negative instants
   | .arr xs => encStr (codeL xs)
   | .obj kvs => encStr (codeKV kvs)
 /-- elements inside containers always carry their type id -/
@@ -38,9 +38,9 @@ def code (v : Value) : Bytes :=
   | .obj _ => tcode numCode v
   | _ => body numCode v
 
-/-- the part of an index key after `c:<coll>;i:<field>`: `;t:<rank>;v:` then the code -/
+/-- the part of an index key after `c:<coll>;i:<field>`: `t:<rank>;v:` then the code (the index prefix ends with its own `;`) -/
 def tkey (v : Value) : Bytes :=
-  [0x3B, 0x74, 0x3A, UInt8.ofNat (48 + v.rank.toNat), 0x3B, 0x76, 0x3A] ++ code numCode v
+  [0x74, 0x3A, UInt8.ofNat (48 + v.rank.toNat), 0x3B, 0x76, 0x3A] ++ code numCode v
 
 mutual
 def Dom : Value → Prop
@@ -172,9 +172,11 @@ theorem body_order : (a b : Value) → Dom numOK a → Dom numOK b → a.rank = 
   | .time x _, b, da, db, hr => by
       cases b <;> first
         | (exfalso; simp [Value.rank] at hr; done)
-        | (rename_i y
+        | (rename_i y0 oy
            simp only [Dom] at da db
-           simp only [cmp, body, cmpInt_lt_iff, cmpInt_eq_iff]
+           have hx : x % 2^64 = x := Int.emod_eq_of_lt (by omega) (by omega)
+           have hy : y0 % 2^64 = y0 := Int.emod_eq_of_lt (by omega) (by omega)
+           simp only [cmp, body, cmpInt_lt_iff, cmpInt_eq_iff, hx, hy]
            exact ⟨fun h => encU64_diffLt _ _ (by omega) (by omega), fun h => by rw [h]⟩)
   | .arr xs, b, da, db, hr => by
       cases b <;> first
